@@ -464,6 +464,10 @@ def write_then_read(chk, repo):
                 k0, v0 = call(I, sc, "read_cache", [m, Const(img), Const(7)])
                 chk.require(k0 == "CachingError", "C07-N3", where, f"{sit}: with no cache anywhere read_cache raises CachingError",
                             f"{sit}: with no cache anywhere read_cache {k0} {str(v0)[:60]}", key="write-read:empty")
+                kd, vd = call(I, sc, "read_cache", [W.mapper(root, missing="PermissionError"), Const(img), Const(7)])
+                chk.require(kd == "CachingError", "C07-N3", where, f"{sit}: with no cache anywhere, on a store that answers the read of a missing object with 'permission denied', read_cache raises CachingError",
+                            f"{sit}: with no cache anywhere, on a store that answers the read of a missing object with 'permission denied' (FSMap only turns FileNotFoundError into KeyError; `in` answers False), "
+                            f"read_cache {kd} {str(vd)[:60]}: not a CachingError, so the open does not fall back to parsing the image", key="write-read:empty-denied")
                 kw, vw = call(I, sc, "create_cache", [m, Const(img), g])
                 if kw != "returned":
                     chk.fail("C07-N3", where, f"{sit}: create_cache on an empty cache directory {kw}: {str(vw)[:80]}", key="write-read:write")
